@@ -61,6 +61,9 @@ func reduceSupport(f string, d *vals.DT) (must bool) {
 func opReduce(w *World, st *Step) execResult {
 	a := rawArgs(st)
 	f := w.subst(decodeStr(a[0]))
+	if f == "add" {
+		f = "sum"
+	}
 	axes := decodeInts(a[1])
 	t := w.T(st.Op.H)
 	along := append([]int{}, axes...)
@@ -100,6 +103,9 @@ func opReduce(w *World, st *Step) execResult {
 func opArg(w *World, st *Step) execResult {
 	a := rawArgs(st)
 	f := w.subst(decodeStr(a[0]))
+	if f == "max" || f == "min" {
+		f = "arg" + f
+	}
 	axis := decodeInt(a[1])
 	t := w.T(st.Op.H)
 	var r tensor.Tensor
